@@ -7,8 +7,12 @@
    on a short input is [EIo] (UnexpectedEof).  Machine integers are unbounded
    [N]/[Z]; the casts the code performs (`as u64`, `as i64`, `as usize`) are
    the explicit two's-complement maps [to_bits]/[of_bits]. *)
-From Coupe Require Import Lib.Prelude.
+From Coupe Require Import Lib.Prelude Gen.FormatsGen.
 Open Scope N_scope.
+
+(* The literals of the source (magic strings, version, flag bit, the 16-byte
+   empty-array file, the largest accepted criterion count) are re-read from
+   partition.rs / weight.rs on every run: Gen/FormatsGen.v. *)
 
 (* ---- results ---- *)
 
@@ -116,11 +120,9 @@ Definition read_u64 (s : list N) : fres (N * list N) :=
 
 (* ---- partition file (partition.rs) ---- *)
 
-Definition magic_part : list N := [77; 101; 80; 101].   (* "MePe" *)
-
 (* partition::write: ids are usize, written `as u64` *)
 Definition write_partition (ids : list N) : list N :=
-  magic_part ++ le_enc 8 (N.of_nat (length ids)) ++ flat_map (le_enc 8) ids.
+  part_magic_write ++ le_enc 8 (N.of_nat (length ids)) ++ flat_map (le_enc 8) ids.
 
 (* partition::read.  `Vec::<usize>::with_capacity(count)` panics with
    "capacity overflow" when 8*count > isize::MAX (below that bound a huge
@@ -129,7 +131,7 @@ Definition read_partition (s : list N) : fres (list N) :=
   match take 4 s with
   | None => FErr EIo
   | Some (h, s1) =>
-    if negb (bytes_eqb h magic_part) then FErr EBadHeader
+    if negb (bytes_eqb h part_magic_read) then FErr EBadHeader
     else
       match take 8 s1 with
       | None => FErr EIo
@@ -148,9 +150,8 @@ Definition read_partition (s : list N) : fres (list N) :=
 
 (* ---- weight file (weight.rs) ---- *)
 
-Definition magic_weight : list N := [77; 101; 87; 101].  (* "MeWe" *)
-Definition w_version : N := 1.
-Definition flag_integer : N := 1.
+Definition w_version : N := weight_version.
+Definition flag_integer : N := weight_flag_integer.
 
 (* Array::Integers(Vec<Vec<i64>>) | Array::Floats(Vec<Vec<f64>>); floats are
    their bit patterns (f64::to_bits) *)
@@ -161,11 +162,11 @@ Inductive warray :=
 (* write_inner, generic in the 8-byte encoder of one value *)
 Definition write_weights_inner {T} (flags : N) (enc : T -> list N) (rows : list (list T)) : fres (list N) :=
   match rows with
-  | [] => FOk (magic_weight ++ [w_version; flags; 0; 0; 0; 0; 0; 0; 0; 0; 0; 0])
+  | [] => FOk (weight_empty_file flags)
   | first :: _ =>
     let c := N.of_nat (length first) in
-    if 65535 <? c then FPanic 2
-    else FOk (magic_weight ++ [w_version; flags] ++ le_enc 2 c
+    if weight_max_criteria <? c then FPanic 2
+    else FOk (weight_magic_write ++ [w_version; flags] ++ le_enc 2 c
               ++ le_enc 8 (N.of_nat (length rows))
               ++ flat_map (flat_map enc) rows)
   end.
@@ -217,7 +218,7 @@ Definition read_weights (s : list N) : fres warray :=
   match take 4 s with
   | None => FErr EIo
   | Some (h, s1) =>
-    if negb (bytes_eqb h magic_weight) then FErr EBadHeader
+    if negb (bytes_eqb h weight_magic_read) then FErr EBadHeader
     else
       match take 4 s1 with
       | Some ([version; fl; c0; c1], s2) =>
